@@ -62,6 +62,7 @@ type Ctx struct {
 	Mode    string // build/run mode chosen by the driver ("plain", "race", ...)
 	OutDir  string
 	OnlySig string // replay: stop after the first violation with this signature
+	Div     int    // workload divisor for slow builds (race detector)
 
 	mu           sync.Mutex
 	evaluations  int64
@@ -90,6 +91,9 @@ func (c *Ctx) Scale(q, t int) int {
 		n = t
 	}
 	per := (n + c.NShards - 1) / c.NShards
+	if c.Div > 1 {
+		per = (per + c.Div - 1) / c.Div
+	}
 	if per < 1 {
 		per = 1
 	}
@@ -378,12 +382,13 @@ func Main(prop string, body func(c *Ctx)) {
 	mode := flag.String("mode", "plain", "run mode label")
 	only := flag.String("only-sig", "", "replay: stop at first violation with this signature")
 	procs := flag.Int("procs", 0, "GOMAXPROCS override")
+	div := flag.Int("div", 1, "workload divisor")
 	flag.Parse()
 	if *procs > 0 {
 		runtime.GOMAXPROCS(*procs)
 	}
 	c := &Ctx{
-		Prop: prop, Tier: *tier, Seed: *seed, Shard: *shard, NShards: *nshards, Mode: *mode, OutDir: *out, OnlySig: *only,
+		Prop: prop, Tier: *tier, Seed: *seed, Shard: *shard, NShards: *nshards, Mode: *mode, OutDir: *out, OnlySig: *only, Div: *div,
 		distinct: map[uint64]struct{}{}, cover: map[string]int64{}, viols: map[string]*Viol{},
 		sampleSeen: map[string]int{}, notes: map[string]any{}, start: time.Now(),
 	}
